@@ -318,7 +318,8 @@ def _work(job):
     warnings.simplefilter("ignore")
     rng = random.Random(rseed)
     col = _Collect()
-    nodes, edges, inits = tlc.read_dot(os.path.join(scdir, "G_%s_%d.dot" % (speckind, dim)))
+    sdim = min(dim, 2)
+    nodes, edges, inits = tlc.read_dot(os.path.join(scdir, "G_%s_%d.dot" % (speckind, sdim)))
     ps, _ = paths.edge_cover(nodes, edges, inits, rng=rng, merge=True)
     if cap and len(ps) > cap:
         # stratified: first one path per distinct operation signature (rare generator setters first), then random
@@ -333,7 +334,7 @@ def _work(job):
             seen.add(sig(p))
         ps = (first + rest)[:cap]
     behs = [("state-graph edge cover", [nodes[i] for i in p]) for p in ps]
-    for beh in tlc.read_sim_traces(os.path.join(scdir, "sim"), "S_%s_%d" % (speckind, dim)):
+    for beh in tlc.read_sim_traces(os.path.join(scdir, "sim"), "S_%s_%d" % (speckind, sdim)):
         behs.append(("simulate", [s for _a, s in beh]))
     out = {"traces": 0, "calls": 0, "nontrivial": set(), "samples": [], "tag": tag}
     for origin, sts in behs:
@@ -511,7 +512,7 @@ def run(pid, tier, seed, replay=None):
         jobs = []
         speckinds = sorted({("Fourier" if k == "Fourier" else "RandMeth") for k in kinds})
         for sk in speckinds:
-            for dim in (1, 2, 3):
+            for dim in (1, 2):      # the spec constants of dim 3 equal those of dim 2: one TLC run serves both
                 name = "MC_%s_%d" % (sk, dim)
                 mod, cfg = mc_text(name, sk, dim, "mc" if thorough else "mcquick")
                 sc.write(name + ".tla", mod)
